@@ -9,6 +9,7 @@ import (
 	"go/constant"
 	"go/token"
 	"go/types"
+	"os"
 	"strings"
 
 	"golang.org/x/tools/go/ssa"
@@ -171,26 +172,28 @@ type TFact struct {
 }
 
 type absint struct {
-	diffBusy   bool
-	nnBusy     map[*ssa.Function]bool
-	linBusy    bool
-	edgeCtx    map[ssa.Instruction][]TFact
-	phiProof   map[*ssa.Phi]bool
-	w          *World
-	memo       map[ssa.Value]ival
-	assume     map[ssa.Value]ival
-	inSolve    bool
-	fieldMemo  map[*types.Var]*ival
-	paramMemo  map[*ssa.Parameter]*ival
-	globalNN   map[*ssa.Global]int
-	flMemo     map[flKey]*flRes
-	inFieldLen bool
-	depth      int
-	active     map[ssa.Value]bool
-	wraps      map[*ssa.BinOp]ival   // arithmetic whose ℤ result does not fit its type
-	narrow     map[*ssa.Convert]ival // conversions that may lose value
-	fieldInv   map[*types.Var]ival   // assumed field invariants (proved by induction by their rule)
-	implMemo   map[implKey][]TFact
+	diffBusy    bool
+	nnBusy      map[*ssa.Function]bool
+	linBusy     bool
+	edgeCtx     map[ssa.Instruction][]TFact
+	phiProof    map[*ssa.Phi]bool
+	w           *World
+	memo        map[ssa.Value]ival
+	assume      map[ssa.Value]ival
+	inSolve     bool
+	fieldMemo   map[*types.Var]*ival
+	paramMemo   map[*ssa.Parameter]*ival
+	globalNN    map[*ssa.Global]int
+	flMemo      map[flKey]*flRes
+	inFieldLen  bool
+	depth       int
+	active      map[ssa.Value]bool
+	wraps       map[*ssa.BinOp]ival   // arithmetic whose ℤ result does not fit its type
+	narrow      map[*ssa.Convert]ival // conversions that may lose value
+	fieldInv    map[*types.Var]ival   // assumed field invariants (proved by induction by their rule)
+	implMemo    map[implKey][]TFact
+	lenPosts    map[interface{}]*lenPostCand
+	callLenBusy map[*ssa.Function]bool
 }
 
 type implKey struct {
@@ -407,7 +410,25 @@ func (a *absint) lenOf(v ssa.Value) ival {
 		}
 		if b, ok := x.Call.Value.(*ssa.Builtin); ok && b.Name() == "append" && len(x.Call.Args) >= 1 {
 			l0 := a.lenOf(x.Call.Args[0])
+			if len(x.Call.Args) == 2 {
+				if _, isSl := x.Call.Args[1].Type().Underlying().(*types.Slice); isSl {
+					l1 := a.lenOf(x.Call.Args[1])
+					return ival{sadd(l0.lo, l1.lo), sadd(l0.hi, l1.hi)}
+				}
+			}
 			return ival{l0.lo, inf}
+		}
+		// a module helper returning a slice: its length post-condition (the length equals one
+		// of its integer arguments, or the length of one of its slice arguments, on every
+		// return), evaluated with this call's arguments; else the join over its returns
+		if r, ok := a.callLen(x, 0); ok {
+			return r
+		}
+	case *ssa.Extract:
+		if call, isCall := x.Tuple.(*ssa.Call); isCall {
+			if r, ok := a.callLen(call, x.Index); ok {
+				return r
+			}
 		}
 	}
 	if arr, ok := v.Type().Underlying().(*types.Array); ok {
@@ -422,6 +443,23 @@ func (a *absint) lenOf(v ssa.Value) ival {
 }
 
 func (a *absint) eval1(v ssa.Value) ival {
+	// a helper's value expressed in the caller's terms: a field load keeps the field's
+	// invariant (which holds for every object of the type)
+	if vv, isV := v.(*virtVal); isV {
+		if u, ok := under(vv).(*ssa.UnOp); ok && u.Op == token.MUL {
+			if fa, ok := u.X.(*ssa.FieldAddr); ok {
+				if inv, ok := a.fieldInv[fieldOf(fa)]; ok {
+					return inv
+				}
+				if isIntType(u.Type()) {
+					if r := a.fieldRange(fieldOf(fa)); r != nil {
+						return *r
+					}
+				}
+			}
+		}
+		return typeRange(v.Type())
+	}
 	switch x := v.(type) {
 	case *ssa.Const:
 		if k, ok := constInt(x); ok {
@@ -1964,4 +2002,120 @@ func (a *absint) bigRemainder(call *ssa.Call) (ival, bool) {
 		return ival{0, k - 1}, true
 	}
 	return ival{}, false
+}
+
+// lenPostCand: a length post-condition of module function h's idx-th (slice) result: on every
+// return len(result) equals the candidate — parameter p itself (Len false) or len(p).
+type lenPostCand struct {
+	p   *ssa.Parameter
+	len bool
+}
+
+func (a *absint) lenPost(h *ssa.Function, idx int) (lenPostCand, bool) {
+	type key struct {
+		h   *ssa.Function
+		idx int
+	}
+	if a.lenPosts == nil {
+		a.lenPosts = map[interface{}]*lenPostCand{}
+	}
+	k := key{h, idx}
+	if r, ok := a.lenPosts[k]; ok {
+		if r == nil {
+			return lenPostCand{}, false
+		}
+		return *r, true
+	}
+	a.lenPosts[k] = nil
+	rets := returnsOf(h)
+	if len(rets) == 0 || len(h.Blocks) == 0 {
+		return lenPostCand{}, false
+	}
+	var cands []lenPostCand
+	for _, p := range h.Params {
+		if isIntType(p.Type()) {
+			cands = append(cands, lenPostCand{p, false})
+		} else if _, isSl := p.Type().Underlying().(*types.Slice); isSl {
+			cands = append(cands, lenPostCand{p, true})
+		}
+	}
+	for _, cd := range cands {
+		ct := Term{V: cd.p, Len: cd.len}
+		all := true
+		for _, r := range rets {
+			if idx >= len(r.Results) {
+				all = false
+				break
+			}
+			res := a.w.resolveLoad(r.Results[idx])
+			if isNilConst(res) {
+				// an error return hands back no slice: its length (0) is never relied upon
+				// together with a nil error; require the paired error to be non-nil
+				if n := len(r.Results); n >= 2 && idx < n-1 && !isNilConst(a.w.resolveLoad(r.Results[n-1])) {
+					continue
+				}
+				all = false
+				break
+			}
+			rt := Term{V: res, Len: true}
+			le, _ := a.proveLE(rt, ct, r)
+			ge, _ := a.proveLE(ct, rt, r)
+			if os.Getenv("TURNCHECK_LPDEBUG") != "" {
+				fmt.Fprintf(os.Stderr, "lenPost %s cand %s ret %s: len(%s) le=%v ge=%v\n", fname(h), a.termKey(ct), a.w.instrPos(r), a.w.key(res), le, ge)
+			}
+			if !le || !ge {
+				all = false
+				break
+			}
+		}
+		if all {
+			c := cd
+			a.lenPosts[k] = &c
+			return cd, true
+		}
+	}
+	return lenPostCand{}, false
+}
+
+// callLen: the length of result idx of a call of a module helper.
+func (a *absint) callLen(call *ssa.Call, idx int) (ival, bool) {
+	h := call.Call.StaticCallee()
+	if h == nil || !a.w.IsMod[h] || len(h.Blocks) == 0 || a.callLenBusy[h] {
+		return ival{}, false
+	}
+	if idx < 0 {
+		idx = 0
+	}
+	if idx >= h.Signature.Results().Len() {
+		return ival{}, false
+	}
+	if _, isSl := h.Signature.Results().At(idx).Type().Underlying().(*types.Slice); !isSl {
+		return ival{}, false
+	}
+	if a.callLenBusy == nil {
+		a.callLenBusy = map[*ssa.Function]bool{}
+	}
+	a.callLenBusy[h] = true
+	defer delete(a.callLenBusy, h)
+	if cd, ok := a.lenPost(h, idx); ok {
+		if j := paramIndex(cd.p); j >= 0 && j < len(call.Call.Args) {
+			if cd.len {
+				return a.lenOf(call.Call.Args[j]), true
+			}
+			return a.eval(call.Call.Args[j]).meet(ival{0, inf}), true
+		}
+	}
+	// context-free join over the returns
+	r := ival{1, 0}
+	for _, ret := range returnsOf(h) {
+		if idx >= len(ret.Results) {
+			return ival{}, false
+		}
+		res := a.w.resolveLoad(ret.Results[idx])
+		r = r.join(a.rangeOfTerm(Term{V: res, Len: true}, ret, 2))
+	}
+	if r.empty() {
+		return ival{}, false
+	}
+	return r.meet(ival{0, inf}), true
 }
